@@ -230,8 +230,10 @@ def run(ctx):
                 "alwaysMatches x policy{enabled,disabled,other}, each under 7 realisation variants (exhaustive); "
                 "decide: random concrete pods (0-4 labels, inject label/annotation from 12 values, 12 namespaces, hostNetwork) and configs "
                 "(10 policy strings, 0-2 never / always selectors with matchLabels and In/NotIn/Exists/DoesNotExist/invalid expressions, "
-                "invalid keys/values, empty selectors); inject: every loadable fixture of pkg/kube/inject/testdata/inject plus generated pods, "
-                "each injected once and twice through the real webhook path; distinct = hash of (ops, implementation outputs)")
+                "invalid keys/values, empty selectors); inject: every fixture document of pkg/kube/inject/testdata/inject through the webhook "
+                "(7 injector settings) and through IntoObject, plus generated pods (1-3 containers, probes, ports, init containers, native "
+                "sidecars, volumes, user istio-proxy / istio-init, overrides annotation, 20 steering annotations), each injected once and "
+                "twice; distinct = hash of (ops, implementation outputs / reduced pods); non-trivial = pod was actually injected")
     ctx.assumptions = [
         "the abstraction of injectRequired's inputs to the 1200-row domain is adequate: checked by 7 realisation variants of every row "
         "(decision_deterministic) and by the random concrete stream `decide` against the concrete model, which provably factors through the row",
@@ -318,16 +320,25 @@ def replay(ctx, path):
 
 
 MANIFEST = {
-    "level_text": ("Lean 4 proof: the injection decision injectRequired is enumerated on its complete abstract input domain (1200 rows) by "
-                   "running the real Go function; Lean proves by kernel evaluation that this table equals the documented cascade "
-                   "(inject_table_eq_spec) and the branch-for-branch model, that it is independent of everything outside the listed inputs "
-                   "(decision_deterministic over 7 realisation variants), and derives every precedence clause for all rows; a concrete model "
-                   "incl. label-selector matching provably factors through the table. Idempotence and preservation of the inject path are "
-                   "checked by Lean monitors proved sound and complete (preservesB_iff, idempotentB_iff) on real webhook outputs."),
-    "level_note": ("Trusted: Lean kernel + {propext, Classical.choice, Quot.sound}; the harness' realisation of abstract rows as real objects; "
-                   "pkg/kube/inject/zz_verif_c19.go; Kubernetes selector semantics modelled from apimachinery and tied by differential testing. "
-                   "Partial: template rendering / strategic merge / post-processing are observed through verified monitors on fixtures and "
-                   "generated pods, not proved for all pods."),
-    "technique": "Lean 4: exhaustive kernel-checked decision table regenerated from the real function + differential concrete model + verified monitors on the real webhook path",
+    "level_text": ("Lean 4 proof. Decision: the real injectRequired is run on its complete abstract input domain (1200 rows x 7 realisation "
+                   "variants) on every check; Lean proves by kernel evaluation that this table equals the documented cascade "
+                   "(inject_table_eq_spec) and the branch-for-branch model (model_eq_impl), that it does not depend on anything outside the "
+                   "listed inputs (decision_deterministic), and derives every precedence clause for all rows (host network, ignored "
+                   "namespaces, label over annotation over never- over always-selector over policy; illegal policy disables; unrecognised "
+                   "label ignores the annotation); the concrete model incl. Kubernetes label-selector matching provably factors through the "
+                   "table (concrete_eq_table) and is tied by a differential stream. Idempotence / preservation: the real webhook path "
+                   "(Webhook.inject) and kube-inject path (IntoObject) are run once and twice on every pod fixture of the repository under 7 "
+                   "injector settings and on generated pods; Lean monitors proved sound and complete (preservesB_iff, idempotentB_iff, "
+                   "judge_injected_sound/complete) judge the reduced pods, a Go oracle judges the full objects. Three defects found this way "
+                   "(re-injection dropped sidecar overrides / flipped the iptables uid; duplicate-port-number containers lost a port) are "
+                   "fixed in /repo and pinned by corpus witnesses."),
+    "level_note": ("Trusted: Lean kernel + {propext, Classical.choice, Quot.sound}; the harness' realisation of abstract rows as real objects "
+                   "and its reduction of pods; pkg/kube/inject/zz_verif_c19.go; Kubernetes selector semantics modelled from apimachinery "
+                   "v0.36.1 and tied by differential testing only. PARTIAL for the second half of the statement: template rendering, "
+                   "strategic merge, overrides re-application and post-processing are observed through verified monitors on fixtures and "
+                   "generated pods (quick ~2400 pods, thorough ~31000), not proved for all pods. Assumes status/overrides annotations were "
+                   "written by the injector under the same injector configuration."),
+    "technique": ("Lean 4: exhaustive kernel-checked decision table regenerated from the real function (T-gen) + differential concrete model "
+                  "(T-diff) + verified monitors on the real webhook and kube-inject paths (T-mon)"),
     "design_ref": "DESIGN.md section 5 C19",
 }
